@@ -240,7 +240,7 @@ from pyvc.values import Opaque as _Opq2  # noqa: E402
 CPL = "dsl_compiler/src/layout/connection_planner.py::ConnectionPlanner."
 _OP2 = ty.TOpaque("x")
 mst_tree = Contract(qualname=CPL + "_build_minimum_spanning_tree", params={"self": _OP2, "entity_ids": _OP2},
-                    effect=lambda ex, a: [("S", "X"), ("X", "Y")], verify=False, note="the tree of this scenario: S - X - Y")
+                    effect=lambda ex, a: [("S", "X"), ("X", "Y")], verify=False, note="the tree of this scenario: S - X - Y (the real function is covered by the spanning-tree box below: bounded)")
 route_edge = Contract(qualname=CPL + "_route_mst_edge", params={"self": _OP2, "ent_a": _OP2, "ent_b": _OP2, "signal_name": _OP2, "wire_color": _OP2,
                                                                 "side_a": _OP2, "side_b": _OP2, "network_id": _OP2}, effect=lambda ex, a: True, verify=False, note="routing succeeds")
 
@@ -517,3 +517,68 @@ for _cls in ("ConstantPropagationOptimizer", "CSEOptimizer"):
         ensures=[("a reference to a replaced node becomes a reference to its canonical node on the same type; everything else is returned unchanged", _uv_post)],
         dynamic_types={"self": {"replacements": ty.TDict(ty.Str, ty.Str)}, "value": {"debug_label": ty.TOpt(ty.Str), "debug_metadata": ty.TConcrete({}), "source_ast": ty.TConcrete(None)}},
         properties=("C10",), min_obligations=2, no_replay=True))
+
+
+# =================================================================================================
+# ConnectionPlanner._build_minimum_spanning_tree (callee of the fan-out contract above): the edges returned form a spanning TREE
+# of the entities that have a position — every such entity reached, no cycle, grown from the first one (the source), of minimal
+# total wire length — and entities without a position are left out.  Evaluated on the REAL method over an enumerated box
+# (2..5 entities on a small grid, some without a position): bounded.
+# =================================================================================================
+MSTQ = "dsl_compiler/src/layout/connection_planner.py::ConnectionPlanner._build_minimum_spanning_tree"
+
+
+def _mst_post(a, res):
+    import math
+    pos = a.self._scenario["positions"]
+    valid = [e for e in a.entity_ids if pos.get(e) is not None]
+    if len(valid) <= 1:
+        return list(res) == []
+    if len(res) != len(valid) - 1:
+        return False
+    reached = {valid[0]}
+    for u, v in res:
+        if u not in reached or v in reached or v not in valid:
+            return False          # not grown from the tree / closes a cycle / unknown entity
+        reached.add(v)
+    if reached != set(valid):
+        return False
+    # minimal total length (Prim from scratch, own implementation)
+    tree, total = {valid[0]}, 0.0
+    while len(tree) < len(valid):
+        d, w = min((math.dist(pos[x], pos[y]), y) for x in tree for y in valid if y not in tree)
+        total += d
+        tree.add(w)
+    got = sum(math.dist(pos[u], pos[v]) for u, v in res)
+    return abs(got - total) < 1e-9
+
+
+mst = Contract(qualname=MSTQ, params={"self": ty.TOpaque("planner"), "entity_ids": ty.TOpaque("ids")},
+               ensures=[("a spanning tree of the positioned entities, grown from the first, of minimal total length", _mst_post)],
+               verify=False, properties=("C10", "C08"), note="evaluated on the real method over an enumerated box (bounded stand-in)")
+CONTRACTS.append(mst)
+
+
+def mst_arg_sets():
+    import itertools
+    from dsl_compiler.src.layout.connection_planner import ConnectionPlanner
+    from dsl_compiler.src.layout.layout_plan import LayoutPlan
+    grid = [(0.5, 1.0), (3.5, 1.0), (0.5, 5.0), (6.5, 5.0), (3.5, 9.0), (10.5, 1.0)]
+    out = []
+    for n in (1, 2, 3, 4, 5):
+        for pts in itertools.permutations(grid, n):
+            if n >= 4 and hash(pts) % 7:
+                continue   # thin the larger layers
+            for missing in (None, 0, n - 1):
+                plan = LayoutPlan()
+                ids = [f"e{i}" for i in range(n)]
+                positions = {}
+                for i, (eid, p) in enumerate(zip(ids, pts)):
+                    position = None if missing == i else p
+                    plan.create_and_add_placement(ir_node_id=eid, entity_type="arithmetic-combinator", position=position, footprint=(1, 2), role="x", debug_info={})
+                    positions[eid] = position
+                cp = object.__new__(ConnectionPlanner)
+                cp.layout_plan = plan
+                cp._scenario = {"positions": positions}
+                out.append({"self": cp, "entity_ids": ids + (["ghost"] if missing is None and n == 2 else [])})
+    return out
